@@ -367,6 +367,73 @@ def pick_deleted(rng, pv, texts):
     return target
 
 
+def gen_bridge_pair(rng, doc, texts):
+    """two edits in one paragraph whose targets each run across a pending deletion (so both are found only in the
+    accepted view) and meet in the same plain run: the first reduces, after context trimming, to a pure insertion
+    inside that run, the second changes the last word of the same run.  -> [] or 2 edits"""
+    word = WordSource(rng)
+    pvs = [ParaView(si, pi, p) for pi, (si, p) in enumerate(sem.all_paragraphs(doc))]
+    rng.shuffle(pvs)
+    for pv in pvs:
+        acc, chars = pv.acc, pv.chars
+        pos = {id(c): i for i, c in enumerate(chars)}
+
+        def gap_has_del(i, j):
+            """deleted characters between accepted positions i and j (i < j) in document order?"""
+            return any(c["state"] == "del" for c in chars[pos[id(acc[i])] + 1:pos[id(acc[j])]])
+
+        runs = {}
+        for i, c in enumerate(acc):
+            runs.setdefault(c["run"], []).append(i)
+        order = list(runs.items())
+        rng.shuffle(order)
+        for rno, idxs in order:
+            seg = [acc[i] for i in idxs]
+            if seg[0]["state"] != "plain" or seg[0]["marked"] or idxs != list(range(idxs[0], idxs[-1] + 1)):
+                continue
+            lo, hi = idxs[0], idxs[-1] + 1
+            if lo == 0 or hi >= len(acc):
+                continue
+            txt = "".join(c["c"] for c in seg)
+            if "\n" in txt:
+                continue
+            starts = [k for k in range(len(txt)) if txt[k] != " " and (k == 0 or txt[k - 1] == " ")]
+            if len(starts) < 3 or starts[0] != 0:
+                continue
+            # to the left until a deletion has been crossed and a word start is reached
+            a1, crossed = lo, False
+            while a1 > 0 and lo - a1 < 25 and not (crossed and acc[a1 - 1]["c"] == " "):
+                a1 -= 1
+                crossed = crossed or gap_has_del(a1, a1 + 1)
+            # to the right likewise
+            b2, crossed2 = hi, False
+            while b2 < len(acc) and b2 - hi < 25 and not (crossed2 and acc[b2]["c"] == " "):
+                crossed2 = crossed2 or gap_has_del(b2 - 1, b2)
+                b2 += 1
+            if not crossed or not crossed2 or acc[a1]["c"] == " ":
+                continue
+            b1 = lo + starts[2] - 1                 # the first two words of the run (without the blank behind them)
+            a2 = lo + starts[-1]                    # the last word of the run
+            if a2 <= b1:
+                continue
+            e1 = _range_edit(rng, pv, texts, a1, b1, word, kind="shared")
+            e2 = _range_edit(rng, pv, texts, a2, b2, word, kind="shared")
+            if not e1 or not e2 or not e1["over_del"] or not e2["over_del"]:
+                continue
+            k1 = (lo - a1) + starts[1]           # offset in target 1 where the second word of the run starts
+            e1["new"] = e1["target"][:k1] + word() + " " + e1["target"][k1:]
+            lw = len(txt.rstrip(" ")) - starts[-1]
+            e2["new"] = word() + e2["target"][lw:]
+            if e1["target"] in e2["target"] or e2["target"] in e1["target"]:
+                continue
+            if e1["target"] != e1["target"].strip() or e2["target"] != e2["target"].strip():
+                continue
+            for e in (e1, e2):
+                e.update({"state": "plain", "rid": None, "bridge_pair": True})
+            return [e1, e2]
+    return []
+
+
 def gen_mixed_batch(rng, doc, texts, n_edits, kinds=None, comment_p=0.3, conflicts=False, extras=True, states=("plain",)):
     """Found edits of every kind + (extras) not-found / empty-target edits + (conflicts) duplicate / overlapping /
     nested / inside-deleted-text edits, shuffled. Single-line kinds only when `conflicts` (the C08 oracle works on
